@@ -18,7 +18,9 @@ EXPLANATION = (
   "(R3); relations honour the ALL_ROWS contract and compose target-then-source (R4); reference "
   "columns keep their inverse map in step with every write (R5); lookup indexes invalidate the "
   "keys they changed and keep sorted caches consistent (R6); columns entering or leaving a table "
-  "are invalidated and removed from the graph (R7). Not decided: that recorded relations are the "
+  "are invalidated and removed from the graph (R7); every doc action that makes a new column name "
+  "appear in a table invalidates what referred to unknown columns of it, after the usercode "
+  "rebuild (R8). Not decided: that recorded relations are the "
   "right row mappings for every formula shape.")
 
 RECORD_ACTIONS = ("BulkAddRecord", "BulkRemoveRecord", "BulkUpdateRecord", "ReplaceTableData")
@@ -30,7 +32,7 @@ def check(run, repo, tier):
   # helper keep their place
   import os
   _HERE = os.path.dirname(os.path.abspath(__file__))
-  decide(run, repo, [r1_invalidate, r2_removal_siblings, r3_read_requires_dependency, r4_relations, r5_reference_index, r6_lookup_index, r7_column_lifecycle, r6_reset_all_keys],
+  decide(run, repo, [r1_invalidate, r2_removal_siblings, r3_read_requires_dependency, r4_relations, r5_reference_index, r6_lookup_index, r7_column_lifecycle, r6_reset_all_keys, r8_new_column_names],
          anchors_of(os.path.join(_HERE, "c05.py"), os.path.join(_HERE, "_extra.py"), os.path.join(_HERE, "_h_E.py"), os.path.join(_HERE, "../events.py")))
 
 def r6_reset_all_keys(run, w):
@@ -772,6 +774,51 @@ def r7_column_lifecycle(run, w):
          missing=not inv or not creates)
 
 
+def r8_new_column_names(run, w):
+  R8 = run.rule("C05-R8", "doc actions that make a new column name appear in a table (inverse is "
+                "RemoveColumn / RenameColumn) call the engine's new-column-name invalidation on "
+                "every path, after rebuild_usercode()", floor=2)
+  from .c01 import INVERSE
+  # the engine method, by role: invalidates the dependents of <table>._new_columns_node
+  eng = w.repo.cls("engine.Engine")
+  notifiers = []
+  for m in eng.methods.values():
+    f = w.fn_of(m)
+    for (n, c, nm) in calls_E(f):
+      if endswith(nm, "invalidate_deps") and c.args and \
+          text(c.args[0]).endswith("._new_columns_node"):
+        notifiers.append(m)
+  if not notifiers:
+    raise AnalysisError("no Engine method invalidates <table>._new_columns_node any more")
+  nnames = {m.name for m in notifiers}
+  for m in notifiers:
+    f = w.fn_of(m)
+    inv = {n.id for (n, c, nm) in calls_E(f) if endswith(nm, "invalidate_deps") and c.args and
+           text(c.args[0]).endswith("._new_columns_node")}
+    run.ob(R8, m.qualname, "dep_graph.invalidate_deps(table._new_columns_node, ALL_ROWS, ...)",
+           "formulas that failed on an unknown column name are recomputed, unconditionally",
+           f.cfg.dominated_by(f.cfg.exit.id, inv), fi=m, nontrivial=False)
+  cls = w.repo.cls("docactions.DocActions")
+  makers = sorted(an for an, (prim, extras) in INVERSE.items()
+                  if set(prim) & {"RemoveColumn", "RenameColumn"})
+  for an in makers:
+    if an not in cls.methods:
+      continue
+    fn = w.fn_of(cls.methods[an])
+    cfg = fn.cfg
+    rebuilds = nodes_calling_E(fn, E.is_engine_call("rebuild_usercode"))
+    notes = {n.id for (n, c, nm) in calls_E(fn)
+             if nm is not None and nm.split(".")[-1] in nnames and
+             (E.is_engine_call(nm.split(".")[-1])(c, nm, fn))}
+    if not rebuilds:
+      raise AnalysisError("%s: rebuild_usercode() call not found" % fn.qualname)
+    # after every rebuild (only then does the new name resolve), on every path
+    ok = bool(notes) and all(cfg.postdominated_by(r, notes) for r in rebuilds)
+    run.ob(R8, fn.qualname, "rebuild_usercode(); new_column_name(table)",
+           "after the rebuild made the new name resolvable, everything that referred to an unknown "
+           "column of this table is invalidated", ok, fi=fn.fi, missing=not notes)
+
+
 D = "sandbox/grist/docactions.py"
 EN = "sandbox/grist/engine.py"
 CO = "sandbox/grist/column.py"
@@ -851,6 +898,11 @@ VARIANTS = [
    "    container.discard(value)\n    container.sorted_versions.clear()", "    container.discard(value)", "C05-R6"),
   ("delete-col-keeps-dirty", EN,
    "    self.recompute_map.pop(col_obj.node, None)\n", "", "C05-R7"),
+  ("rename-no-new-column-name", D,
+   "    self._engine.new_column_name(table)\n\n    # We replaced the old column", "\n    # We replaced the old column", "C05-R8"),
+  ("add-new-column-name-before-rebuild", D,
+   "    self._engine.rebuild_usercode()\n    self._engine.new_column_name(table)\n\n    # Generate the undo action.\n    self._engine.out_actions.undo.append(actions.RemoveColumn",
+   "    self._engine.new_column_name(table)\n    self._engine.rebuild_usercode()\n\n    # Generate the undo action.\n    self._engine.out_actions.undo.append(actions.RemoveColumn", "C05-R8"),
   ("new-col-not-invalidated", TB,
    "      col_obj = column.create_column(self, col_id, col_info)\n      self._engine.invalidate_column(col_obj)",
    "      col_obj = column.create_column(self, col_id, col_info)", "C05-R7"),
